@@ -78,6 +78,11 @@ def known_finding(pid, stream, line, exp, spec, known_ids):
         if f and f(stream, line, exp, spec): return kid
     return None
 
+def call_name(line):
+    t = line.split(' ')
+    try: return bytes.fromhex(t[2]).decode() if t[0] == 'call' else ''
+    except Exception: return ''
+
 def has_nonfinite_literal(line):
     for m in re.finditer(r'\bN([0-9a-f]{16})\b', line):
         if (int(m.group(1), 16) >> 52) & 0x7ff == 0x7ff: return True
@@ -183,6 +188,9 @@ KNOWN_PREDICATES = {
     # D3: Value::cmp is not transitive when numeric strings meet numbers, and NaN equals every number
     'C13-unsafe-collection': lambda stream, line, exp, spec: (stream in ('ord', 'sortlaw') and exp.strip().endswith(' unsafe')),
     # D3b: slice::sort detects the inconsistent order and panics
+    # chrono's i32 overflow in from_isoywd_opt (overflow-checked builds only): %G format and the year at an i32 limit
+    'C09-chrono-isoweek-overflow': lambda stream, line, exp, spec: (exp.strip() in ('panic', 'crash') and call_name(line) in ('string_to_date', 'string_to_datetime')
+                                                                   and '2547' in line and any(h in line for h in ('2d32313437343833363438', '32313437343833363437'))),
     'C09-sort-unsafe-collection': lambda stream, line, exp, spec: (stream.startswith('call') and line.endswith(' #unsafe') and exp.strip() in ('panic', 'crash')),
     # D9: JSON has no representation for NaN / infinities; serde_json writes null, the value visitor rejects null
     'C12-nonfinite-literal': lambda stream, line, exp, spec: 'json' in stream and has_nonfinite_literal(line),
